@@ -48,9 +48,18 @@ fn main() {
         serde_json::json!({"reference_points": st.points, "worst_t_cdf_abs": st.worst_t_cdf, "worst_t_cdf_quadrature_abs": st.worst_quad,
             "worst_t_quantile_rel": st.worst_t_ppf_rel, "worst_norm_cdf_abs": st.worst_norm_cdf, "worst_norm_quantile_abs": st.worst_norm_ppf, "worst_binom_pmf_rel": st.worst_binom_rel}),
     );
-    if !props::dispatch(&id, &run) {
-        println!("INCONCLUSIVE property={} reason=unknown_property", id);
-        std::process::exit(2);
+    match sci_common::rt::caught(|| props::dispatch(&id, &run)) {
+        Ok(true) => {}
+        Ok(false) => {
+            println!("INCONCLUSIVE property={} reason=unknown_property", id);
+            std::process::exit(2);
+        }
+        Err(p) => {
+            // a panic outside the sharded runner (sequential lanes): classified like the others
+            let mut l = run.local();
+            run.escaped_panic(&p, "sequential_lane", &mut l);
+            run.absorb(l);
+        }
     }
     // the same monitor executed against the production-profile build of the crate (see /verif/check)
     if let Some(i) = run.cfg.extra.iter().position(|a| a == "--prod-summary") {
